@@ -21,12 +21,13 @@ type rwOp struct {
 }
 
 type rwCase struct {
-	Method   string `json:"method"`
-	Flusher  bool   `json:"underlying_flusher"`
-	FailAt   int    `json:"fail_at,omitempty"`   // the k-th Write reaching the underlying writer misbehaves (0 = never)
-	FailMode string `json:"fail_mode,omitempty"` // short | err | shorterr
-	Via      string `json:"via"`                 // direct (NewResponseWriter) | handler (Context.ResponseWriter inside a request)
-	Ops      []rwOp `json:"ops"`
+	Method   string  `json:"method"`
+	Flusher  bool    `json:"underlying_flusher"`
+	FailAt   int     `json:"fail_at,omitempty"`   // the k-th Write reaching the underlying writer misbehaves (0 = never)
+	FailMode string  `json:"fail_mode,omitempty"` // short | err | shorterr
+	Via      string  `json:"via"`                 // direct (NewResponseWriter) | handler (Context.ResponseWriter inside a request)
+	Ops      []rwOp  `json:"ops"`
+	Other    *rwCase `json:"interleaved_second_writer,omitempty"` // a second writer alive at the same time, its operations interleaved one by one (direct only)
 }
 
 func init() {
@@ -81,38 +82,56 @@ type rwObs struct {
 	pan      interface{}
 }
 
-func driveRW(c *rwCase, rw flamego.ResponseWriter, obs *rwObs) {
-	nh := 0
-	for _, op := range c.Ops {
-		switch op.Op {
-		case "header":
-			rw.WriteHeader(op.Code)
-		case "write":
-			n, err := rw.Write(make([]byte, op.N))
-			e := 0
-			if err != nil {
-				e = 1
+// rwStepper drives one sequence one operation at a time (so that two writers can be interleaved).
+type rwStepper struct {
+	c   *rwCase
+	rw  flamego.ResponseWriter
+	obs *rwObs
+	i   int
+	nh  int
+}
+
+func (st *rwStepper) step() bool {
+	if st.i >= len(st.c.Ops) {
+		return false
+	}
+	op, rw, obs := st.c.Ops[st.i], st.rw, st.obs
+	st.i++
+	switch op.Op {
+	case "header":
+		rw.WriteHeader(op.Code)
+	case "write":
+		n, err := rw.Write(make([]byte, op.N))
+		e := 0
+		if err != nil {
+			e = 1
+		}
+		obs.rets = append(obs.rets, [2]int{n, e})
+	case "flush":
+		rw.Flush()
+	case "before":
+		id := st.nh
+		st.nh++
+		rw.Before(func(x flamego.ResponseWriter) {
+			bad := 0
+			if x.Written() || x.Status() != 0 {
+				bad = 1
 			}
-			obs.rets = append(obs.rets, [2]int{n, e})
-		case "flush":
-			rw.Flush()
-		case "before":
-			id := nh
-			nh++
-			rw.Before(func(x flamego.ResponseWriter) {
-				bad := 0
-				if x.Written() || x.Status() != 0 {
-					bad = 1
-				}
-				obs.hookSaw = append(obs.hookSaw, [2]int{id, bad})
-				obs.log = append(obs.log, fmt.Sprintf("hook%d", id))
-			})
-		}
-		wr := 0
-		if rw.Written() {
-			wr = 1
-		}
-		obs.readings = append(obs.readings, [3]int{rw.Status(), rw.Size(), wr})
+			obs.hookSaw = append(obs.hookSaw, [2]int{id, bad})
+			obs.log = append(obs.log, fmt.Sprintf("hook%d", id))
+		})
+	}
+	wr := 0
+	if rw.Written() {
+		wr = 1
+	}
+	obs.readings = append(obs.readings, [3]int{rw.Status(), rw.Size(), wr})
+	return true
+}
+
+func driveRW(c *rwCase, rw flamego.ResponseWriter, obs *rwObs) {
+	st := &rwStepper{c: c, rw: rw, obs: obs}
+	for st.step() {
 	}
 }
 
@@ -249,6 +268,10 @@ func genRWCase(rng *rand.Rand) *rwCase {
 	}
 	if rng.Intn(5) == 0 {
 		c.Via = "handler"
+	} else if rng.Intn(5) == 0 {
+		o := genRWCase(rng)
+		o.Via, o.Other = "direct", nil
+		c.Other = o
 	}
 	n := rng.Intn(13)
 	if rng.Intn(50) == 0 {
@@ -279,6 +302,7 @@ func genRWCase(rng *rand.Rand) *rwCase {
 func judgeRW(w *core.W, c *rwCase) {
 	w.Eval()
 	obs := &rwObs{}
+	var otherObs *rwObs
 	spy := &rwSpy{h: http.Header{}, log: &obs.log, failAt: c.FailAt, mode: c.FailMode}
 	var under http.ResponseWriter = spy
 	if c.Flusher {
@@ -292,8 +316,34 @@ func judgeRW(w *core.W, c *rwCase) {
 			f.ServeHTTP(under, &http.Request{Method: c.Method, URL: &url.URL{Path: "/rw"}, Header: http.Header{}})
 			return
 		}
+		if c.Other != nil {
+			// two writers alive at once: what belongs to one (status, size, before-functions) must not reach the other
+			oobs := &rwObs{}
+			ospy := &rwSpy{h: http.Header{}, log: &oobs.log, failAt: c.Other.FailAt, mode: c.Other.FailMode}
+			var ounder http.ResponseWriter = ospy
+			if c.Other.Flusher {
+				ounder = rwSpyF{ospy}
+			}
+			a := &rwStepper{c: c, rw: flamego.NewResponseWriter(c.Method, under), obs: obs}
+			b := &rwStepper{c: c.Other, rw: flamego.NewResponseWriter(c.Other.Method, ounder), obs: oobs}
+			for {
+				ma, mb := a.step(), b.step()
+				if !ma && !mb {
+					break
+				}
+			}
+			otherObs = oobs
+			return
+		}
 		driveRW(c, flamego.NewResponseWriter(c.Method, under), obs)
 	}()
+	if otherObs != nil {
+		w.Count("interleaved-writers")
+		if msg := rwVerdict(c.Other, otherObs); msg != "" {
+			w.Violate("response-writer", c, "[second, interleaved writer] "+msg)
+			return
+		}
+	}
 	if msg := rwVerdict(c, obs); msg != "" {
 		w.Violate("response-writer", c, msg)
 		return
@@ -364,7 +414,7 @@ func runC13(r *core.Run) {
 			r.GateCounter("first-trigger:"+f+"/"+h, 100)
 		}
 	}
-	for _, k := range []string{"fault-fired:short", "fault-fired:err", "fault-fired:shorterr", "via:handler", "via:direct"} {
+	for _, k := range []string{"fault-fired:short", "fault-fired:err", "fault-fired:shorterr", "via:handler", "via:direct", "interleaved-writers"} {
 		r.GateCounter(k, 100)
 	}
 }
